@@ -22,7 +22,16 @@ THEOREMS = ["Pfl.PDA.accEmpty_iff",
 
 def generate(rng, tier):
     while True:
-        yield {"p": P.gen_pda(rng), "g": G.gen_cfg(rng, max_vars=3, max_prods=6)}
+        g = G.gen_cfg(rng, max_vars=3, max_prods=6)
+        if rng.random() < 0.15:
+            # a terminal spelled like a variable: legal, and to_pda must keep the two apart
+            heads = sorted({h for h, _ in g["prods"]})
+            ts = sorted({x[1] for _, b in g["prods"] for x in b if x[0] == "t"})
+            if heads and ts:
+                old_t, new_t = rng.choice(ts), rng.choice(heads)
+                g["prods"] = [[h, [["t", new_t] if x == ["t", old_t] else x for x in b]] for h, b in g["prods"]]
+                g["ters"] = [new_t if t == old_t else t for t in g["ters"]]
+        yield {"p": P.gen_pda(rng), "g": g}
 
 
 def decode_cfg(pda, cfg):
